@@ -341,6 +341,8 @@ impl Drop for ShmWriter {
     /// TODO: revisit to see if this can be refactored into the MmapGuard logic implemented on the
     /// ShmReader.
     fn drop(&mut self) {
+        #[cfg(clock_bound_verif)]
+        crate::verif::unregister_mapping(self.addr as usize, self.segsize);
         unsafe {
             nix::sys::mman::munmap(self.addr, self.segsize).expect("munmap");
         }
